@@ -824,6 +824,7 @@ func (fc *FnCtx) doReturn(x *ssa.Return) {
 	if fc.con == nil {
 		return
 	}
+	fc.anchorAssertsAt(x.Pos())
 	env := fc.returnEnv(x.Results)
 	for i := range fc.con.Ensures {
 		cl := &fc.con.Ensures[i]
@@ -907,23 +908,35 @@ func (fc *FnCtx) runDefers(x *ssa.RunDefers) {
 
 // anchorAsserts: contract "assert at" clauses bind to the first debug reference on a source line containing the anchor text.
 func (fc *FnCtx) anchorAsserts(d *ssa.DebugRef) {
-	if fc.con == nil || len(fc.con.Asserts) == 0 {
+	fc.anchorAssertsAt(d.Expr.Pos())
+}
+
+// anchorAssertsAt: ... or to a return statement on such a line that mentions no variable (`return nil`).
+func (fc *FnCtx) anchorAssertsAt(pos token.Pos) {
+	if fc.con == nil || len(fc.con.Asserts) == 0 || !pos.IsValid() {
 		return
 	}
 	for i := range fc.con.Asserts {
 		a := &fc.con.Asserts[i]
-		if !fc.anchorMatches(a.Anchor, d.Expr.Pos()) {
+		if !fc.anchorMatches(a.Anchor, pos) {
 			continue
 		}
-		key := fmt.Sprintf("%d@%d", i, fc.e.fset.Position(d.Expr.Pos()).Line)
+		key := fmt.Sprintf("%d@%d", i, fc.e.fset.Position(pos).Line)
 		if fc.anchorsDone == nil {
 			fc.anchorsDone = map[string]bool{}
 		}
 		if fc.anchorsDone[key] {
 			continue
 		}
-		fc.anchorsDone[key] = true
 		env := fc.pointEnv(fc.curBlock)
+		if !a.Apply && a.Ghost == "" {
+			// a clause naming a variable that the anchored line itself defines binds at the first point of the
+			// line where every name it mentions is defined
+			if _, ok := fc.tryEvalBool(a.C.E, env); !ok {
+				continue
+			}
+		}
+		fc.anchorsDone[key] = true
 		if a.Apply {
 			fc.applyLemma(a.C.E.(*ECall), env)
 			continue
@@ -953,7 +966,7 @@ func (fc *FnCtx) anchorAsserts(d *ssa.DebugRef) {
 			fc.assumeHere(f)
 			fc.e.assume("%s: assume at %q: %s", fc.name, a.Anchor, a.C.Src)
 		} else {
-			fc.oblige("assert", a.C.Label, f, d.Expr.Pos(), &a.C)
+			fc.oblige("assert", a.C.Label, f, pos, &a.C)
 		}
 	}
 }
